@@ -3,5 +3,6 @@ CONSTANTS
   NCallers = 3
   RecyclesWrappers = FALSE
   SharedDefaults = FALSE
+  SharedCloser = FALSE
   OnceIsNilCheck = FALSE
 CHECK_DEADLOCK FALSE
